@@ -174,9 +174,18 @@ def harness(ctx, suite, mode, args, timeout=3600, race=False, env=None):
     return rc, out
 
 
+def model_exe(suite):
+    try:
+        table = json.load(open(os.path.join(LEAN, "suites.json")))
+    except Exception:
+        table = {}
+    return table.get(suite, "dawgsmodel")
+
+
 def run_model(ctx, suite, ops_path, out_path, timeout=3600):
+    exe = os.path.join(LEAN, ".lake", "build", "bin", model_exe(suite))
     with open(ops_path) as fin, open(out_path, "w") as fout:
-        p = subprocess.run([MODEL_BIN, suite], stdin=fin, stdout=fout, stderr=subprocess.PIPE, timeout=timeout)
+        p = subprocess.run([exe, suite], stdin=fin, stdout=fout, stderr=subprocess.PIPE, timeout=timeout)
     return p.returncode == 0
 
 
